@@ -126,6 +126,21 @@ func c15Gen(r *rng, n int, w *bufio.Writer) {
 		rulesW := wlist(items...)
 		for j := 0; j < 2 && i < n; j++ {
 			host := c15Host(r)
+			if r.chance(2, 3) { // a domain some rule of the scenario names, or a subdomain / concrete TLD of it
+				var used []string
+				for _, d := range append(append([]string{}, c15Domains...), c15Wild...) {
+					if strings.Contains(strings.Join(all, "\n"), d) {
+						used = append(used, d)
+					}
+				}
+				if len(used) > 0 {
+					host = pick(r, used)
+					if strings.HasSuffix(host, ".*") {
+						host = strings.TrimSuffix(host, "*") + pick(r, []string{"com", "co.uk", "de", "org", "notatld"})
+					}
+					host = pick(r, []string{"", "", "www.", "a.b.", "my"}) + host
+				}
+			}
 			for flags := 0; flags < 8 && i < n; flags, i = flags+1, i+1 {
 				css, js, gen := flags&1 != 0, flags&2 != 0, flags&4 != 0
 				ans := guardStr(func() string {
